@@ -964,24 +964,24 @@ theorem fxe_visitStmt : ∀ (s : Stmt) (σ : List Scope) (b : B) (a : Acc) (il :
     obtain ⟨⟨⟨⟨⟨hfb, hfh⟩, hfo⟩, hff⟩, _⟩, _⟩ := hf
     simp only [visitStmt, keys3, stmtEmits]
     have hp' : OwnPre (Scope.try_ i (!final.isEmpty) (handlerIds handlers) :: σ) il := hp.try_scope i _ _
-    have ki : sk i ∈ sk i :: (repKey orelse ++ (repKey handlers ++ (keysL3 body ++ (keysL3 handlers ++ (keysL3 orelse ++ keysL3 final))))) :=
+    have ki : sk i ∈ sk i :: (elseKey i orelse ++ (repKey handlers ++ (keysL3 body ++ (keysL3 handlers ++ (keysL3 orelse ++ keysL3 final))))) :=
       List.mem_cons_self ..
-    have kb : ∀ k, k ∈ keysL3 body → k ∈ sk i :: (repKey orelse ++ (repKey handlers ++ (keysL3 body ++ (keysL3 handlers ++ (keysL3 orelse ++ keysL3 final))))) :=
+    have kb : ∀ k, k ∈ keysL3 body → k ∈ sk i :: (elseKey i orelse ++ (repKey handlers ++ (keysL3 body ++ (keysL3 handlers ++ (keysL3 orelse ++ keysL3 final))))) :=
       fun k hk => mem_keys_cons_of (List.mem_append.mpr (Or.inr (List.mem_append.mpr (Or.inr (List.mem_append.mpr (Or.inl hk))))))
-    have kh : ∀ k, k ∈ keysL3 handlers → k ∈ sk i :: (repKey orelse ++ (repKey handlers ++ (keysL3 body ++ (keysL3 handlers ++ (keysL3 orelse ++ keysL3 final))))) :=
+    have kh : ∀ k, k ∈ keysL3 handlers → k ∈ sk i :: (elseKey i orelse ++ (repKey handlers ++ (keysL3 body ++ (keysL3 handlers ++ (keysL3 orelse ++ keysL3 final))))) :=
       fun k hk => mem_keys_cons_of (List.mem_append.mpr (Or.inr (List.mem_append.mpr (Or.inr (List.mem_append.mpr (Or.inr (List.mem_append.mpr (Or.inl hk))))))))
-    have ko : ∀ k, k ∈ keysL3 orelse → k ∈ sk i :: (repKey orelse ++ (repKey handlers ++ (keysL3 body ++ (keysL3 handlers ++ (keysL3 orelse ++ keysL3 final))))) :=
+    have ko : ∀ k, k ∈ keysL3 orelse → k ∈ sk i :: (elseKey i orelse ++ (repKey handlers ++ (keysL3 body ++ (keysL3 handlers ++ (keysL3 orelse ++ keysL3 final))))) :=
       fun k hk => mem_keys_cons_of (List.mem_append.mpr (Or.inr (List.mem_append.mpr (Or.inr (List.mem_append.mpr (Or.inr (List.mem_append.mpr (Or.inr (List.mem_append.mpr (Or.inl hk))))))))))
-    have kf : ∀ k, k ∈ keysL3 final → k ∈ sk i :: (repKey orelse ++ (repKey handlers ++ (keysL3 body ++ (keysL3 handlers ++ (keysL3 orelse ++ keysL3 final))))) :=
+    have kf : ∀ k, k ∈ keysL3 final → k ∈ sk i :: (elseKey i orelse ++ (repKey handlers ++ (keysL3 body ++ (keysL3 handlers ++ (keysL3 orelse ++ keysL3 final))))) :=
       fun k hk => mem_keys_cons_of (List.mem_append.mpr (Or.inr (List.mem_append.mpr (Or.inr (List.mem_append.mpr (Or.inr (List.mem_append.mpr (Or.inr (List.mem_append.mpr (Or.inr hk))))))))))
     have IHb := fxe_visitStmts body (Scope.try_ i (!final.isEmpty) (handlerIds handlers) :: σ) (b.beginStatement i) a il hfb hp'
-    have rest : FrameX (sk i :: (repKey orelse ++ (repKey handlers ++ (keysL3 body ++ (keysL3 handlers ++ (keysL3 orelse ++ keysL3 final))))))
+    have rest : FrameX (sk i :: (elseKey i orelse ++ (repKey handlers ++ (keysL3 body ++ (keysL3 handlers ++ (keysL3 orelse ++ keysL3 final))))))
         (visitStmts (Scope.try_ i (!final.isEmpty) (handlerIds handlers) :: σ) body (b.beginStatement i) a).1
         ((optSection (if final.isEmpty then none else some i) (fun k b => b.enterFinallySection k) (fun k b => b.exitFinallySection k)
           (fun _ => visitStmts σ final)
           (optSection (handlers.head?.map Stmt.id) (fun k b => b.enterCondSection k) (fun k b => (b.newCondBranch k).exitCondSection k)
             (fun k => visitHandlers σ k handlers)
-            (optSection (orelse.head?.map Stmt.id) (fun k b => (b.enterCondSection k).newCondBranch k)
+            (optSection (elseRep i orelse) (fun k b => (b.enterCondSection k).newCondBranch k)
               (fun k b => (b.newCondBranch k).exitCondSection k)
               (fun _ => visitStmts (Scope.try_ i (!final.isEmpty) (handlerIds handlers) :: σ) orelse)
               (visitStmts (Scope.try_ i (!final.isEmpty) (handlerIds handlers) :: σ) body (b.beginStatement i) a)))).1.endStatement i) := by
